@@ -425,9 +425,24 @@ MUTANTS = [
   "    if n_params is not None and len(params) not in n_params:",
   "    if n_params is not None and len(params) < min(n_params):"),
  ('C17-6', 'C17', K + 'FileHandlers/Parser/ParseMCNPCell.py',
-  "        if kw_list and kw_list[-1][0] in '0123456789.+-':\n            msg = (f'unexpected entry",
-  "        if False:\n            msg = (f'unexpected entry"),
- # (C17-7 dropped: only changes which of two named errors is raised)
+  "        if kw_list and (kw_list[-1][0] in '0123456789.+-'\n                        or self.SHORTHAND_RE.fullmatch(kw_list[-1])):",
+  "        if False:"),
+ ('C17-7', 'C17', K + 'FileHandlers/Parser/ParseMCNPCell.py',
+  "                        or self.SHORTHAND_RE.fullmatch(kw_list[-1])):",
+  "                        or False):"),
+ ('C11-8', 'C11', 'MIP/mip/cellcard.py',
+  "                             (\\s+\\S+\\s+[^\\s(#]+) # material and density",
+  "                             (\\s+\\S+\\s+[^\\s(]+) # material and density"),
+ ('C06-2', 'C06', K + 'Volume/CellConversion.py',
+  "            if cell.lattice is not None and (universe is None\n                                             or cell.universe == universe):",
+  "            if cell.lattice is not None:"),
+ ('C02-8', 'C02', K + 'Surface/ConversionSurfaceMCNPToT4.py',
+  "    if gsq > 0.0:\n        gq_params",
+  "    if eval_quadric(gq_params, (xsq, ysq, zsq)) > 0.0:\n        gq_params"),
+ ('C08-10', 'C08', K + 'FileHandlers/Parser/ParseMCNPCell.py',
+  "        if name == 'read':",
+  "        if name == 'read-disabled':"),
+ # (an earlier C17-7, which only changed which of two named errors is raised, was dropped; the id is reused below)
  ('C17-8', 'C17', K + 'FileHandlers/Parser/ParseMCNPCell.py',
   "                if lat_opt is None:\n                    msg = 'no --lattice option provided'\n                    raise MissingLatticeOptError(msg) from None",
   "                if lat_opt is None:\n                    lat_opt = parse_ranges(['0:0'] * 3)"),
